@@ -127,10 +127,19 @@ def worker(c):
         P.case(nontrivial=False)
         return P.result()
     rows = prob.rows
+    if not all(np.isfinite(v).all() for v in (prob.M, prob.a_s, prob.J, prob.aref, rows.R, rows.eta, b["a"])):
+        P.count("skipped_nonfinite_scene")
+        P.case(nontrivial=False)
+        return P.result()
     if rows.coupling_err > 1e-9:
         viol("elliptic-R-coupling-violated", err=rows.coupling_err)
         return P.result()
-    r = prob.solve(rng)
+    try:
+        r = prob.solve(rng)
+    except (ValueError, np.linalg.LinAlgError):
+        P.count("skipped_reference_optimiser_failed")
+        P.case(nontrivial=False)
+        return P.result()
     xs = prob.Lc.T @ prob.a_s
     scale_x = float(np.linalg.norm(r["x"]) + np.linalg.norm(xs)) + 1e-9 * float(np.sqrt(np.trace(prob.M)))
     scale_c = 0.5 * scale_x ** 2 + abs(r["cost_start"])
